@@ -380,6 +380,9 @@ func strMatch(L *LState) int {
 	if offset < 0 {
 		offset = 0
 	}
+	if offset > l { // Lua 5.1 clamps init to the end of the subject
+		offset = l
+	}
 
 	mds, err := pm.Find(pattern, unsafeFastStringToReadOnlyBytes(str), offset, 1)
 	if err != nil {
@@ -387,7 +390,7 @@ func strMatch(L *LState) int {
 	}
 	if len(mds) == 0 {
 		L.Push(LNil)
-		return 0
+		return 1
 	}
 	md := mds[0]
 	nsubs := md.CaptureLength() / 2
